@@ -236,6 +236,11 @@ pub struct Gen {
     pub recent: Vec<Op>,
     /// one user piling up open positions (the per-user limit is 10), directly and through the
     /// pool manager
+    /// weight churn: (user, lp denom, expansions left, phase) - one user changes their weight in
+    /// more consecutive epochs than one page of snapshots (10) without claiming, then leaves the LP
+    /// token, re-enters and claims
+    pub churn: Option<(String, String, u32, u8)>,
+    pub churn_done: bool,
     pub hoard_left: u32,
     pub hoard_done: bool,
     pub hoarder: Option<String>,
@@ -261,7 +266,7 @@ impl Gen {
             }
         }
         let pool_rich = prof.w.contains_key("route") && rng.chance(1, 7);
-        Gen { hoard_left: 0, hoard_done: false, hoarder: None, recent: vec![], step_dt: 0, pool_rich, rng, prof, total_steps, emitted: 0, next_id: 0, disabled, draining: false, drain_phase: 0, drain_tried: Default::default(), burst_left: 0, burst_done: false }
+        Gen { churn: None, churn_done: false, hoard_left: 0, hoard_done: false, hoarder: None, recent: vec![], step_dt: 0, pool_rich, rng, prof, total_steps, emitted: 0, next_id: 0, disabled, draining: false, drain_phase: 0, drain_tried: Default::default(), burst_left: 0, burst_done: false }
     }
 
     fn uid(&mut self, p: &str) -> String {
@@ -1401,6 +1406,80 @@ impl Gen {
         }
     }
 
+    /// next step of the weight-churn scenario; None when it cannot continue
+    fn gen_churn(&mut self, c: &SimCore) -> Option<(Op, u64)> {
+        let (who, lp, left, phase) = self.churn.clone()?;
+        let dur = c.w.cfg.epoch_duration;
+        let now = c.w.now();
+        let gen = c.w.genesis();
+        // to the start of the next epoch (+ a little)
+        let to_next = if now < gen { gen - now } else { dur - ((now - gen) % dur) } + self.rng.below(5);
+        let mine: Vec<mantra_dex_std::farm_manager::Position> =
+            c.obs.positions.iter().filter(|p| p.open && p.receiver.as_str() == who && p.lp_asset.denom == lp).cloned().collect();
+        let b = bal(&c.obs.bal, &who, &lp);
+        match phase {
+            0 => {
+                if left == 0 || b < 2 {
+                    self.churn = Some((who, lp, 0, 1));
+                    return self.gen_churn(c);
+                }
+                self.churn = Some((who.clone(), lp.clone(), left - 1, 0));
+                let amt = (b / 40).max(1);
+                let op = match mine.first() {
+                    Some(p) if !self.rng.chance(1, 6) => Op::Fm {
+                        sender: who,
+                        msg: FmMsg::ManagePosition { action: PositionAction::Expand { identifier: p.identifier.clone() } },
+                        funds: vec![coin(amt, lp)],
+                    },
+                    _ => Op::Fm {
+                        sender: who,
+                        msg: FmMsg::ManagePosition {
+                            action: PositionAction::Create { identifier: None, unlocking_duration: c.w.cfg.farm.min_unlocking_duration, receiver: None },
+                        },
+                        funds: vec![coin(amt, lp)],
+                    },
+                };
+                Some((op, to_next))
+            }
+            1 => match mine.first() {
+                // leave the LP token: close every open position
+                Some(p) => Some((
+                    Op::Fm {
+                        sender: who,
+                        msg: FmMsg::ManagePosition { action: PositionAction::Close { identifier: p.identifier.clone(), lp_asset: None } },
+                        funds: vec![],
+                    },
+                    if self.rng.chance(1, 3) { to_next } else { 0 },
+                )),
+                None => {
+                    self.churn = Some((who, lp, 0, 2));
+                    self.gen_churn(c)
+                }
+            },
+            2 => {
+                self.churn = Some((who.clone(), lp.clone(), 0, 3));
+                if b == 0 {
+                    self.churn = None;
+                    return None;
+                }
+                Some((
+                    Op::Fm {
+                        sender: who,
+                        msg: FmMsg::ManagePosition {
+                            action: PositionAction::Create { identifier: None, unlocking_duration: c.w.cfg.farm.min_unlocking_duration, receiver: None },
+                        },
+                        funds: vec![coin((b / 2).max(1), lp)],
+                    },
+                    to_next,
+                ))
+            }
+            _ => {
+                self.churn = None;
+                Some((Op::Fm { sender: who, msg: FmMsg::Claim { until_epoch: None }, funds: vec![] }, to_next + dur))
+            }
+        }
+    }
+
     /// one more open position for the hoarder: a direct creation while below the limit, a locked
     /// deposit through the pool manager at / above it (or at random)
     fn gen_hoard(&mut self, c: &SimCore) -> Option<Op> {
@@ -1930,6 +2009,35 @@ impl Gen {
             (op, bdt)
         } else {
             (Op::Noop, dt)
+        };
+        // weight churn (an eighth of the runs that create positions at all), once a user has an
+        // open position and LP to spare
+        if !self.churn_done && self.burst_left == 0 && self.hoard_left == 0 && self.emitted > self.prof.setup_steps + 4 && self.prof.w.contains_key("pos_create") {
+            let cands: Vec<(String, String)> = c
+                .obs
+                .positions
+                .iter()
+                .filter(|p| p.open && bal(&c.obs.bal, p.receiver.as_str(), &p.lp_asset.denom) >= 40)
+                .map(|p| (p.receiver.to_string(), p.lp_asset.denom.clone()))
+                .collect();
+            if !cands.is_empty() {
+                self.churn_done = true;
+                if self.rng.chance(1, 8) {
+                    let (u, l) = self.rng.pick(&cands).clone();
+                    self.churn = Some((u, l, self.rng.range(10, 13) as u32, 0));
+                }
+            }
+        }
+        let (op, dt) = if matches!(op, Op::Noop) && self.churn.is_some() && !self.rng.chance(1, 5) {
+            match self.gen_churn(c) {
+                Some((op, cdt)) => {
+                    self.step_dt = cdt;
+                    (op, cdt)
+                }
+                None => (Op::Noop, dt),
+            }
+        } else {
+            (op, dt)
         };
         // position hoarding (a sixth of the runs that create positions at all)
         if !self.hoard_done && self.burst_left == 0 && self.emitted > self.prof.setup_steps + 2 && self.prof.w.contains_key("pos_create") && !c.obs.pools.is_empty() {
